@@ -11,8 +11,34 @@ use serde_json::{json, Value};
 use std::collections::{BTreeSet, VecDeque};
 
 pub fn key_domain() -> Vec<V> {
+    key_domain_for(Tier::Quick)
+}
+pub fn key_domain_for(tier: Tier) -> Vec<V> {
     let p53 = 1i64 << 53;
     let mut k = vec![];
+    if tier == Tier::Thorough {
+        // the ends of the integer range and the doubles they round to, more nesting, mixed two-element arrays
+        for i in [i64::MAX, i64::MIN, i64::MAX - 1, p53 - 1, -p53, -p53 - 1, 255, 256, 97] {
+            k.push(V::Int(i));
+        }
+        for f in [9223372036854775808.0, -9223372036854775808.0, -(p53 as f64), 255.0, 97.0, f64::INFINITY, f64::NEG_INFINITY, 5e-324, -1.5] {
+            k.push(V::Float(f));
+        }
+        k.push(V::Byte(255));
+        k.push(V::Byte(97));
+        k.push(V::Char('\0'));
+        k.push(V::Str("\0".into()));
+        k.push(V::Str("len".into()));
+        k.push(arr(vec![V::Int(1), V::Float(0.0)]));
+        k.push(arr(vec![V::Float(1.0), V::Float(-0.0)]));
+        k.push(arr(vec![V::Float(1.0), V::Int(0)]));
+        k.push(arr(vec![arr(vec![arr(vec![V::Float(-0.0)])])]));
+        k.push(arr(vec![arr(vec![arr(vec![V::Int(0)])])]));
+        k.push(arr(vec![V::Null]));
+        k.push(arr(vec![V::Byte(1)]));
+        k.push(arr(vec![V::Bool(true)]));
+        k.push(arr(vec![V::Str("a".into()), V::Int(1)]));
+    }
     for i in [0, 1, -1, p53, p53 + 1] {
         k.push(V::Int(i));
     }
@@ -66,9 +92,18 @@ fn pair_programs() -> Vec<(&'static str, &'static str, &'static str)> {
     ]
 }
 
-const HKEYS: &[&str] = &["1", "1.0", "0.0", "(-0.0)", "[1]", "[1.0]", "\"1\"", "true"];
-fn hkey_vals() -> Vec<V> {
+const HKEYS_ALL: &[&str] = &["1", "1.0", "0.0", "(-0.0)", "[1]", "[1.0]", "\"1\"", "true", "[[0.0]]", "[[(-0.0)]]", "[[0]]"];
+fn hkeys(tier: Tier) -> &'static [&'static str] {
+    &HKEYS_ALL[..tier.pick(8, 11)]
+}
+fn hkey_vals(tier: Tier) -> Vec<V> {
+    let mut v = hkey_vals_all();
+    v.truncate(tier.pick(8, 11));
+    v
+}
+fn hkey_vals_all() -> Vec<V> {
     vec![
+        // (the last three are thorough-only)
         V::Int(1),
         V::Float(1.0),
         V::Float(0.0),
@@ -77,6 +112,9 @@ fn hkey_vals() -> Vec<V> {
         arr(vec![V::Float(1.0)]),
         V::Str("1".into()),
         V::Bool(true),
+        arr(vec![arr(vec![V::Float(0.0)])]),
+        arr(vec![arr(vec![V::Float(-0.0)])]),
+        arr(vec![arr(vec![V::Int(0)])]),
     ]
 }
 
@@ -93,7 +131,7 @@ pub struct P10 {
 }
 impl P10 {
     pub fn new(tier: Tier) -> P10 {
-        P10 { keys: key_domain(), tier }
+        P10 { keys: key_domain_for(tier), tier }
     }
     fn npairs(&self) -> u64 {
         (self.keys.len() * self.keys.len()) as u64
@@ -101,6 +139,8 @@ impl P10 {
 }
 
 fn history_src(h: &[Op]) -> String {
+    #[allow(non_snake_case)]
+    let HKEYS = HKEYS_ALL;
     let mut s = String::from("let m = map {};\n");
     for o in h {
         if o.via_index {
@@ -112,7 +152,9 @@ fn history_src(h: &[Op]) -> String {
     s
 }
 
-fn probe_src() -> String {
+fn probe_src(tier: Tier) -> String {
+    #[allow(non_snake_case)]
+    let HKEYS = hkeys(tier);
     // observe every key through every read path, plus len
     let mut parts = vec![];
     for k in HKEYS {
@@ -137,7 +179,7 @@ fn model_apply(m: &mut Vec<(usize, i64)>, o: &Op, eqm: &Vec<Vec<bool>>) -> Optio
 }
 fn model_probe(m: &Vec<(usize, i64)>, eqm: &Vec<Vec<bool>>) -> String {
     let mut parts = vec![];
-    for k in 0..HKEYS.len() {
+    for k in 0..eqm.len() {
         let hit = m.iter().find(|e| eqm[e.0][k]);
         parts.push(match hit {
             Some(e) => format!("i{}", e.1),
@@ -166,7 +208,7 @@ impl Property for P10 {
             json!({"k1": self.keys[v[1] as usize].to_src(), "k2": self.keys[v[0] as usize].to_src(),
                    "programs": pair_programs().iter().map(|p| p.0).collect::<Vec<_>>()})
         } else {
-            json!({"bfs": "insert(m,k,v) / m[k]=v histories to a fixpoint", "keys": HKEYS, "values": [10, 20]})
+            json!({"bfs": "insert(m,k,v) / m[k]=v histories to a fixpoint", "keys": hkeys(self.tier), "values": [10, 20]})
         }
     }
     fn run(&self, idx: u64) -> CaseOut {
@@ -221,7 +263,9 @@ impl Property for P10 {
             CaseOut::pass(class).with_counts(1, runs, runs)
         } else {
             // BFS over histories; state = the model's association list *with the stored key object*
-            let hk = hkey_vals();
+            let hk = hkey_vals(self.tier);
+            #[allow(non_snake_case)]
+            let HKEYS = HKEYS_ALL;
             let mut eqm = vec![vec![false; hk.len()]; hk.len()];
             for i in 0..hk.len() {
                 for j in 0..hk.len() {
@@ -236,13 +280,13 @@ impl Property for P10 {
                     }
                 }
             }
-            let probes = probe_src();
+            let probes = probe_src(self.tier);
             let mut seen: BTreeSet<Vec<(usize, i64)>> = BTreeSet::new();
             let mut frontier: VecDeque<(Vec<Op>, Vec<(usize, i64)>)> = VecDeque::new();
             seen.insert(vec![]);
             frontier.push_back((vec![], vec![]));
             let (mut states, mut transitions) = (1u64, 0u64);
-            let max_depth = self.tier.pick(6, 12);
+            let max_depth = self.tier.pick(6, 14);
             let mut deepest = 0;
             while let Some((hist, model)) = frontier.pop_front() {
                 if hist.len() >= max_depth {
@@ -296,10 +340,10 @@ impl Property for P10 {
         }
     }
     fn rule(&self) -> String {
-        format!("(i) all {}^2 ordered pairs of a {}-key domain (ints incl. 2^53+1, integral/non-integral floats, +-0.0, NaN, bytes, chars, strings, bools, null, builtins, nested arrays) x 14 access programs (literal vs insert/index-assignment population; m[k], get, contains, insert's return value, len, overwrite); oracle: same entry iff the VM's own k1 == k2 (NaN, which is not equal to itself, must be refused as a key); (ii) one breadth-first search over histories of insert(m,k,v) and m[k]=v with 8 mutually colliding keys {:?} x 2 values, states canonicalised as the association list including which key object is stored, run to a fixpoint; after every transition the real map (fresh object, history replayed on the real code) is probed with every key via get/contains and len and compared with the model", self.keys.len(), self.keys.len(), HKEYS)
+        format!("(i) all {}^2 ordered pairs of a {}-key domain (ints incl. 2^53+1, integral/non-integral floats, +-0.0, NaN, bytes, chars, strings, bools, null, builtins, nested arrays) x 14 access programs (literal vs insert/index-assignment population; m[k], get, contains, insert's return value, len, overwrite); oracle: same entry iff the VM's own k1 == k2 (NaN, which is not equal to itself, must be refused as a key); (ii) one breadth-first search over histories of insert(m,k,v) and m[k]=v with {} mutually colliding keys {:?} x 2 values, states canonicalised as the association list including which key object is stored, run to a fixpoint; after every transition the real map (fresh object, history replayed on the real code) is probed with every key via get/contains and len and compared with the model", self.keys.len(), self.keys.len(), hkeys(self.tier).len(), hkeys(self.tier))
     }
     fn bounds(&self) -> Value {
-        json!({"keys": self.keys.len(), "history_keys": HKEYS.len(), "history_values": 2, "bfs": "fixpoint (depth cap 6 quick / 12 thorough, not reached if the evidence class says so)"})
+        json!({"keys": self.keys.len(), "history_keys": hkeys(self.tier).len(), "history_values": 2, "bfs": "fixpoint (depth cap 6 quick / 14 thorough, not reached if the evidence class says so)"})
     }
     fn assumptions(&self) -> Vec<String> {
         vec!["canonical state = association list with stored key objects: sound because a map's future behaviour is a function of its stored (key, value) pairs".into(),
